@@ -1254,6 +1254,10 @@ impl<'a> Evaluator<'a> {
                 if ["u8::from", "u16::from", "u32::from", "u64::from", "u128::from", "usize::from", "i32::from", "i64::from", "i128::from"].contains(&full.as_str()) && args.len() == 1 && matches!(args[0], Val::Int { .. }) {
                     return Ok(args.into_iter().next().unwrap());
                 }
+                // a Cow is the text it holds
+                if (full == "Cow::Borrowed" || full == "Cow::Owned" || full == "Cow::from") && args.len() == 1 {
+                    return Ok(args.into_iter().next().unwrap());
+                }
                 if full == "String::with_capacity" {
                     return Ok(Val::Str(String::new()));
                 }
@@ -1878,6 +1882,13 @@ impl<'a> Evaluator<'a> {
                         }
                         "lines" if mc.args.is_empty() => return Ok(Val::List(st.lines().map(|l| Val::Str(l.to_string())).collect())),
                         "char_indices" if mc.args.is_empty() => return Ok(Val::List(st.char_indices().map(|(i, c)| Val::Tuple(vec![Val::int(i as i128), Val::Char(c)])).collect())),
+                        "trim_end_matches" | "trim_start_matches" | "trim_matches" if mc.args.len() == 1 => {
+                            match self.eval(&mc.args[0], env)? {
+                                Val::Str(p) if !p.is_empty() => return Ok(Val::Str(match name.as_str() { "trim_end_matches" => st.trim_end_matches(p.as_str()), "trim_start_matches" => st.trim_start_matches(p.as_str()), _ => { let t = st.trim_start_matches(p.as_str()); t.trim_end_matches(p.as_str()) } }.to_string())),
+                                Val::Char(c) => return Ok(Val::Str(match name.as_str() { "trim_end_matches" => st.trim_end_matches(c), "trim_start_matches" => st.trim_start_matches(c), _ => st.trim_matches(c) }.to_string())),
+                                _ => {}
+                            }
+                        }
                         "trim" if mc.args.is_empty() => return Ok(Val::Str(st.trim().to_string())),
                         "trim_start" if mc.args.is_empty() => return Ok(Val::Str(st.trim_start().to_string())),
                         "trim_end" if mc.args.is_empty() => return Ok(Val::Str(st.trim_end().to_string())),
@@ -1954,7 +1965,7 @@ impl<'a> Evaluator<'a> {
                         Val::Str(t) => Ok(Val::List(t.bytes().map(|b| Val::int(b as i128)).collect())),
                         _ => unreachable!(),
                     },
-                    "into" | "clone" | "to_owned" | "as_ref" | "as_deref" | "to_string" | "as_str" | "copied" | "cloned" | "borrow" | "as_mut" | "into_iter" | "iter" | "iter_mut" | "to_vec" => Ok(recv),
+                    "into" | "clone" | "to_owned" | "into_owned" | "as_ref" | "as_deref" | "to_string" | "as_str" | "copied" | "cloned" | "borrow" | "as_mut" | "into_iter" | "iter" | "iter_mut" | "to_vec" => Ok(recv),
                     // index arithmetic (the receiver is treated as unsigned: a negative difference is None / 0)
                     "checked_ilog10" | "ilog10" if matches!(recv, Val::Int { input: false, .. }) && mc.args.is_empty() => {
                         let Val::Int { v, .. } = recv else { unreachable!() };
@@ -2094,7 +2105,17 @@ impl<'a> Evaluator<'a> {
                     Val::Ctor(n, _, f) if n == "$set" => f.into_values().collect(),
                     o => return Err(format!("for loop over {}", o.show())),
                 };
-                for item in items {
+                // `for x in &mut place` / `for x in place.iter_mut()`: what the body does to `x` is done to the element
+                let mut_place = match &*fl.expr {
+                    Expr::Reference(r) if r.mutability.is_some() => self.place_of(&r.expr),
+                    Expr::MethodCall(mc) if mc.method == "iter_mut" && mc.args.is_empty() => self.place_of(&mc.receiver),
+                    _ => None,
+                };
+                let elem_name = match &*fl.pat {
+                    syn::Pat::Ident(pi) if pi.subpat.is_none() => Some(pi.ident.to_string()),
+                    _ => None,
+                };
+                for (idx, item) in items.into_iter().enumerate() {
                     let mut e2 = env.clone();
                     match self.pat_match(&fl.pat, &item, &mut e2) {
                         PatM::Yes => {}
@@ -2102,6 +2123,13 @@ impl<'a> Evaluator<'a> {
                     }
                     let r = self.eval_block(&fl.body, &mut e2)?;
                     merge_back_shadow_safe(env, &e2, &fl.pat);
+                    if let (Some(place), Some(en)) = (&mut_place, &elem_name) {
+                        if let (Some(nv), Some(Val::List(l))) = (e2.get(en).cloned(), place_get_mut(env, place)) {
+                            if idx < l.len() {
+                                l[idx] = nv;
+                            }
+                        }
+                    }
                     if let Val::Ctor(n, _, _) = &r {
                         if n == "$return" {
                             return Ok(r);
